@@ -13,24 +13,24 @@ CLAIMS = {
     'C01': dict(text='Static analysis: units/levels abstract interpretation of all intersects_bounds forms down to the numba kernels (axis, level, base, parity, '
                      'fencepost, in-loop confinement), CFG dominance of box re-orientation, exhaustive weak-ordering evaluation of the comparison-only fragments '
                      '(closed box membership, interval overlap, bbox reject soundness, projection shortcut), form agreement scalar/array/inds, inert rows => False, '
-                     'containment fallback on every non-accepting exit. Orientation sign table and box-edge coverage (finite tables), IEEE (no-fastmath) compilation of the kernels.',
+                     'containment fallback on every non-accepting exit. Orientation sign table and box-edge coverage (finite tables), IEEE (no-fastmath) compilation of the kernels. Edge tests collected by interpreting the call chain down to segments_intersect; rejects inside it sound for the arguments passed at these call sites; scalar point compares in double precision.',
                 undecided='correctness of the orientation/winding arithmetic, the geometric lemma behind the projection shortcut, exact-arithmetic behaviour.',
                 technique='abstract interpretation (units/levels type system) + CFG dominance + exhaustive order-type evaluation', ref='§5 C01'),
     'C02': dict(text='Static analysis: units typing of the point-vs-shape kernels and wrappers, scalar/array/inds agreement, exhaustive evaluation of the half-open edge rule and '
-                     'the closed segment bbox over all weak orderings, validity-mask sanitisation of fixed-width values.',
+                     'the closed segment bbox over all weak orderings, validity-mask sanitisation of fixed-width values. Paired (same-member) multipoint membership; scalar point equality on coordinate values.',
                 undecided='winding-number arithmetic, behaviour exactly on ring boundaries.',
                 technique='abstract interpretation + exhaustive order-type evaluation + taint (validity mask)', ref='§5 C02'),
     'C03': dict(text='Static analysis of HilbertRtree: exhaustive weak-ordering (and NaN) evaluation of node pruning (soundness) and leaf classification (equivalence) for '
                      'n=1..3 dimensions, NaN-safe reductions in the builder, page/parent rows = (min of lower bounds, max of upper bounds), builder/reader agreement of the '
-                     'leaf<->key-slice arithmetic, cursor discipline of the result buffers, pairing of key slices with the masks computed from the same start:stop. GeometryArray.sindex is built on all rows\' bounds in array order; no fastmath (discharges the NaN-comparison assumption).',
+                     'leaf<->key-slice arithmetic, cursor discipline of the result buffers, pairing of key slices with the masks computed from the same start:stop. GeometryArray.sindex is built on all rows\' bounds in array order; no fastmath (discharges the NaN-comparison assumption). Public wrappers return the traversal\'s answer; queries do not write the index.',
                 undecided='disjointness of traversal ranges as an inductive invariant, independence from p as a whole, exactly-once as a whole.',
                 technique='exhaustive order-type evaluation of comparison-only fragments + CFG pairing + affine comparison', ref='§5 C03'),
     'C04': dict(text='Static analysis of the cx indexers: axes/defaults/swap/layout of _get_bounds (order-type evaluation), covered U tested rows with mask pairing and order '
-                     'restoration, active geometry + parent handed to the indexer, positional selection, who may write _sindex. Necessary obligations of C03 (the index answers exactly) are re-reported here.',
+                     'restoration, active geometry + parent handed to the indexer, positional selection, who may write _sindex. Necessary obligations of C03 (the index answers exactly) are re-reported here. Exact test on every path of the resolved __getitem__ (overrides and super() followed); boxes fed to the index (C13) re-reported.',
                 undecided='the exact test itself (C01), pandas indexing semantics.',
                 technique='order-type evaluation + def-use pairing + who-may-write', ref='§5 C04'),
     'C05': dict(text='Static analysis of sjoin: emitted pairs flow only through the exact-predicate mask of the same candidates, same-row rule, outcome-level join-kind '
-                     'flags per merge chain (unmatched left/right rows kept?), suffix order, geometry drop, index restoration, Dask form zips partitions with their own bounds. Necessary obligations of C02 (predicate) and C03 (candidates) are re-reported here.',
+                     'flags per merge chain (unmatched left/right rows kept?), suffix order, geometry drop, index restoration, Dask form zips partitions with their own bounds. Necessary obligations of C02 (predicate) and C03 (candidates) are re-reported here. Index reset on every path of _record_reset_index unless the guard proves labels = positions.',
                 undecided='pandas merge semantics (multiplicity, NaN fill, column order), index dtypes.',
                 technique='def-use provenance + merge-chain abstraction (table rule)', ref='§5 C05'),
     'C06': dict(text='Static analysis of the Dask layer: op table (Dask method = map_partitions of the same-named pandas method with the same arguments), NaN-ignoring role-typed '
@@ -39,20 +39,20 @@ CLAIMS = {
                 undecided='Dask graph semantics, equality of computed values.',
                 technique='table/sibling agreement + def-use provenance + who-may-write', ref='§5 C06'),
     'C08': dict(text='Static analysis of hilbert_distance: no store into the total_bounds argument (effects), no cross-row operation between bounds and result, '
-                     'same-dimension centre/range, zero-extent widening on both axes, both clips dominate the return of _data2coord, delegation passes total_bounds and p. 64-bit width of the distances on the whole path to the caller.',
+                     'same-dimension centre/range, zero-extent widening on both axes, both clips dominate the return of _data2coord, delegation passes total_bounds and p. 64-bit width of the distances on the whole path to the caller. Every return passes through the grid kernel; no read of rows rewritten in place; total_bounds elements converted to float (homogeneous tuple for numba).',
                 undecided='the curve itself (C07), floating-point scaling exactness.',
                 technique='effect analysis + def-use non-interference + CFG dominance', ref='§5 C08'),
     'C09': dict(text='Static analysis of pack_partitions: distance column from the active geometry with frame-level total_bounds evaluated once outside the per-partition '
-                     'function and passed explicitly with the caller\'s p; assigned column = set_index column; npartitions/shuffle reach set_index; partition-count guard on every path. Necessary obligations of C08 and of the Dask total_bounds reduction are re-reported here.',
+                     'function and passed explicitly with the caller\'s p; assigned column = set_index column; npartitions/shuffle reach set_index; partition-count guard on every path. Necessary obligations of C08 and of the Dask total_bounds reduction are re-reported here. An already packed frame loses its old index before set_index (dask contract S9).',
                 undecided='row conservation and ordering under Dask\'s shuffle, independence from input partitioning.',
                 technique='def-use provenance + CFG must-pass-through', ref='§5 C09'),
     'C10': dict(text='Static analysis of pack_partitions_to_parquet and its closures: create/cleanup pairing of the placeholder and temp directory families on every normal path, '
                      'ordering (overwrite before makedirs, remove placeholder before write, read before delete, metadata on every path, fresh re-read returned), naming templates of '
-                     'sub-parts/placeholders/final files and the compaction move, validation of tempdir_format before use. Reader-side part ordering (C11.d/C12.c) re-reported: the returned frame is a re-read.',
+                     'sub-parts/placeholders/final files and the compaction move, validation of tempdir_format before use. Reader-side part ordering (C11.d/C12.c) re-reported: the returned frame is a re-read. Bulk renumbering must not delete targets; reader file provenance (listing, not recorded names).',
                 undecided='file contents, Dask quantiles/digitize, real filesystem effects.',
                 technique='CFG must-pass-through/ordering + path-template comparison', ref='§5 C10'),
     'C11': dict(text='Static analysis of the type registry and parquet hooks: closure of Dtype<->Array<->scalar<->Dask example<->nesting level for all seven kinds, arrow hooks, '
-                     'constructor acceptance of (Chunked)Array, index columns prepended to a projection, natural sort of pieces.',
+                     'constructor acceptance of (Chunked)Array, index columns prepended to a projection, natural sort of pieces. Dtype parsing answers per class (no table inherited by subclasses); GeoSeries keeps the labels of Series-like input; one piece per file; dataset files come from the directory listing.',
                 undecided='pyarrow/pandas serialisation itself (almost all value-level content of the property).',
                 technique='registry closure (table rule) + def-use', ref='§5 C11'),
     'C12': dict(text='Static analysis of partition-bounds metadata: writer/reader key agreement, per-partition values from that partition\'s total_bounds in partition order, '
@@ -61,21 +61,21 @@ CLAIMS = {
                 undecided='that the recorded numbers equal the data extents (C13, pyarrow).',
                 technique='key/table agreement + CFG ordering + order-type evaluation + def-use pairing', ref='§5 C12'),
     'C13': dict(text='Static analysis of bounds kernels and accessors: parity->axis, min/max roles, isfinite guards, sentinel->NaN, result layout, values/offsets pairing (absolute vs '
-                     'windowed), validity-mask sanitisation of fixed-width values, delegations return the same layout. NaN-initialised result buffers are floating point for every coordinate subtype; no fastmath.',
+                     'windowed), validity-mask sanitisation of fixed-width values, delegations return the same layout. NaN-initialised result buffers are floating point for every coordinate subtype; no fastmath. Small-scope order-type equivalence of the extent kernel (E-VEC); reduceat empty-segment repair (S11); result buffers float64.',
                 undecided='numerical equality.',
-                technique='abstract interpretation (units/roles) + CFG must-guard + taint', ref='§5 C13'),
+                technique='abstract interpretation (units/roles) + small-scope order-type evaluation + CFG must-guard + taint', ref='§5 C13'),
     'C14': dict(text='Static analysis of measures: dimension of length (sqrt(dX^2+dY^2)) and area (X*dY, halved), isfinite guards, confinement to the ring, map depth = nesting level with '
                      'offsets composed per level, missing guard and NaN prefill, per-kind table, scalar=array kernel with the element\'s innermost offsets, boundary re-wrap with mask. Decision table (store guard x prefill) for missing / part-less / present elements; repository-defined decorator wrappers analysed as part of the method; no fastmath.',
                 undecided='that the shoelace/wrap-around formula is right, degenerate-ring threshold, floating-point accuracy.',
                 technique='abstract interpretation (units/dimensions/levels) + table rule', ref='§5 C14'),
     'C15': dict(text='Static analysis of oriented(): the mutating kernel receives a fresh copy (effects), the result is rebuilt from the same offsets per level with the validity mask '
-                     'outermost, kernel level typing (polygon offsets index rings, ring offsets index coordinates), shell = first ring, both strides reversed over the same range. Shell-marker store stays inside the per-ring array (start offsets of trailing part-less polygons excluded).',
+                     'outermost, kernel level typing (polygon offsets index rings, ring offsets index coordinates), shell = first ring, both strides reversed over the same range. Shell-marker store stays inside the per-ring array (start offsets of trailing part-less polygons excluded). Flip decision as a finite table over (sign of area, expected direction) in all worlds of sign-independent tests (tolerances), helpers followed.',
                 undecided='the sign convention, idempotence, effect on areas and intersections.',
-                technique='effect analysis + abstract interpretation (levels) + def-use', ref='§5 C15'),
+                technique='effect analysis + abstract interpretation (levels) + finite sign table + def-use', ref='§5 C15'),
     'C16': dict(text='Static analysis of derived arrays: every positional raw-buffer read applies the array offset/length, absolute/re-based pairing at kernel call sites, _sindex never '
-                     'carried over, derivations construct the receiver\'s own class. Validity bitmap read for len(array) bits from bit array.offset (loop and vectorised idioms).',
+                     'carried over, derivations construct the receiver\'s own class. Validity bitmap read for len(array) bits from bit array.offset (loop and vectorised idioms). Small-scope equivalence of the validity-bitmap read (offsets 0..20 x lengths 0..12 x 3 patterns); slice shortcuts of take/mask taken only for consecutive positions (all index vectors of length <= 4); scalars built with the array dtype.',
                 undecided='pandas-level semantics and error types, equality of derived quantities.',
-                technique='who-may-read raw buffers + abstract interpretation (base tags) + who-may-write', ref='§5 C16'),
+                technique='who-may-read raw buffers + abstract interpretation (base tags) + small-scope evaluation of index/bit arithmetic + who-may-write', ref='§5 C16'),
     'C17': dict(text='Static analysis, union of the inert-row rules: fixed-width placeholder values sanitised by the validity mask before any result, NaN rows never covered / never '
                      'poisoning reductions in the R-tree, inert rows => False in every box kernel, NaN-ignoring Dask reductions, missing guard + NaN prefill in measures.',
                 undecided='the metamorphic relation as a whole (all results for other rows unchanged).',
@@ -86,11 +86,11 @@ CLAIMS = {
                 technique='effect analysis (stores closed over the call graph) + provenance of mutated buffers', ref='§5 C18'),
     'C19': dict(text='Static analysis of the retried closures: no swallowed errors on the call tree (enumerated metadata-optional reads excepted), listing-equality gate dominates the '
                      'read of a sub-part directory and raises inside the retried function, removal re-checks existence and raises, retried writers open truncating, every filesystem '
-                     'operation goes through the caller\'s filesystem object. Retried functions mutate no state that outlives the attempt (captured or passed in).',
+                     'operation goes through the caller\'s filesystem object. Retried functions mutate no state that outlives the attempt (captured or passed in). Attempt-independent write paths; per-attempt collector lists consumed one entry at a time.',
                 undecided='idempotence under real partial failures, the fault enumeration itself.',
                 technique='CFG dominance + handler discipline + who-may-call', ref='§5 C19'),
     'C20': dict(text='Static analysis of the active geometry: _geometry in _metadata, every frame-level spatial operation obtains the geometry through .geometry, constructor inheritance and '
-                     'set_geometry validation, Dask set_geometry mapped and geometry= reaching partitions, re-derivation hooks (__finalize__ for combined inputs, meta_nonempty, sjoin wrap). Inputs of the geometry agreement are not filtered by row count; bounds of all geometry columns stay aligned with the partitions (from C12).',
+                     'set_geometry validation, Dask set_geometry mapped and geometry= reaching partitions, re-derivation hooks (__finalize__ for combined inputs, meta_nonempty, sjoin wrap). Inputs of the geometry agreement are not filtered by row count; bounds of all geometry columns stay aligned with the partitions (from C12). set_geometry returns self only when inplace; Dask type hooks answer from their argument only; dask token includes the active geometry (S10).',
                 undecided='which pandas code path a given operation takes (S5 is a model of pandas), result types beyond the hooks.',
                 technique='def-use provenance (who-reads) + table rule', ref='§5 C20'),
 }
